@@ -285,6 +285,20 @@ func c14Check(c *Ctx, k c14Case, defQ int, withModel bool) {
 		}
 	} else {
 		q = defQ
+		// the default margin must not depend on whether the caller's hint map is nil, empty, or carries unrelated entries
+		switch (k.reqW + 3*k.reqH) % 3 {
+		case 1:
+			if hints == nil {
+				hints = c14Hints{}
+			}
+			hints[gozxing.EncodeHintType_GS1_FORMAT] = false
+			c.Note("default-margin:with-unrelated-hint")
+		case 2:
+			if hints == nil {
+				hints = c14Hints{}
+				c.Note("default-margin:with-empty-hint-map")
+			}
+		}
 	}
 	bm, out := c14Encode(s.writer, s.contents, s.format, k.reqW, k.reqH, hints)
 	in := k.input()
